@@ -20,6 +20,20 @@ EV = re.compile(r"^\((o|d|l|f) (\S+) \(([-0-9 ]*)\)\)$")
 EVT = re.compile(r"^\(t (\S+) (\w+) \(([-0-9 ]*)\) ")
 
 
+def run_solver(script, **kw):
+    """vlib.run_opensmt, retried while the binary is being relinked by a concurrent build of the implementation
+    (PermissionError / ETXTBSY / missing file for a moment)."""
+    import time
+    last = None
+    for attempt in range(40):
+        try:
+            return vlib.run_opensmt(script, **kw)
+        except OSError as e:
+            last = e
+            time.sleep(3)
+    raise last
+
+
 def run_traced(script, timeout=20, binary=None, args=()):
     """Returns (rc, stdout, stderr, events); events = list of (kind, inst, lits[, extra]) in trace order.
     kind in o d l f t; for t: extra = (tkind, [term strings])."""
@@ -27,7 +41,7 @@ def run_traced(script, timeout=20, binary=None, args=()):
     os.makedirs(tmpd, exist_ok=True)
     tr = os.path.join(tmpd, "tr_%d_%d.txt" % (os.getpid(), random.getrandbits(40)))
     try:
-        rc, out, err = vlib.run_opensmt(script, args=args, timeout=timeout, env_extra={"OPENSMT_VERIF_TRACE": tr}, binary=binary)
+        rc, out, err = run_solver(script, args=args, timeout=timeout, env_extra={"OPENSMT_VERIF_TRACE": tr}, binary=binary)
         events = []
         if os.path.exists(tr):
             with open(tr, errors="replace") as f:
